@@ -288,6 +288,26 @@ static int nest_cb(cfg_t *cfg, cfg_opt_t *opt, int argc, const char **argv)
 	return 0;
 }
 
+// nestfree(text): the callback creates a context of its own from schema 0, parses <text> into it and frees it again
+static int nestfree_cb(cfg_t *cfg, cfg_opt_t *opt, int argc, const char **argv)
+{
+	string a = ",\"argv\":[";
+	for (int i = 0; i < argc; i++)
+		a += (i ? "," : "") + jstr(argv[i]);
+	a += "]";
+	cb_tick("func", opt, a);
+	cfg_t *tmp = cfg_init(g_schema[0], CFGF_NONE);
+	if (tmp) {
+		size_t n0 = g_diag.size();
+		cfg_set_error_function(tmp, errfunc);
+		if (argc >= 1)
+			cfg_parse_buf(tmp, argv[0]);
+		cfg_free(tmp);
+		g_diag.resize(n0);
+	}
+	return 0;
+}
+
 static void print_cb(cfg_opt_t *opt, unsigned int index, FILE *fp) { fprintf(fp, "<%s:%u>", opt->name, index); }
 
 static int filter_cb(cfg_t *cfg, cfg_opt_t *opt)
@@ -645,7 +665,7 @@ static cfg_opt_t *build_opts(long sid)
 				break;
 			case 'F':
 				o.type = CFGT_FUNC;
-				o.func = (def.s == "1") ? cfg_include : (def.s == "2") ? nest_cb : func_cb;
+				o.func = (def.s == "1") ? cfg_include : (def.s == "2") ? nest_cb : (def.s == "3") ? nestfree_cb : func_cb;
 				break;
 			}
 			if (cb & 1)
